@@ -18,7 +18,7 @@ CHECKS = {
     },
     "C20": {
         "runs": [
-            R(LAB, "^TestC20Limits", {"checks": 16, "timeout": 900}, {"checks": 100, "shards": 4, "timeout": 3000}),
+            R(LAB, "^TestC20Limits", {"checks": 24, "timeout": 900}, {"checks": 100, "shards": 4, "timeout": 3000}),
         ],
     },
     "C15": {
@@ -112,7 +112,7 @@ CHECKS = {
     "C16": {
         "binaries": ["forwarder"],
         "runs": [
-            R(LAB, "^TestC16Dispatch", {"checks": 40, "timeout": 900}, {"checks": 400, "shards": 8, "timeout": 3000}),
+            R(LAB, "^TestC16Dispatch", {"checks": 90, "timeout": 900}, {"checks": 400, "shards": 8, "timeout": 3000}),
             R("./header", "^TestC16Apply", {"checks": 20000, "timeout": 300}, {"checks": 200000, "shards": 8, "timeout": 1200}),
             R("./header", "^TestC16(Parse|Grammar)", {"checks": 20000, "timeout": 300}, {"checks": 200000, "shards": 4, "timeout": 1200}),
         ],
